@@ -237,7 +237,11 @@ template <typename D> struct DomObj : Obj {
     else if (op == "assign") x = arg(tk);
     else if (op == "closure") force_closure(x);                 // shortest_path_closure_assign / strong_closure_assign
     else if (op == "reduction") force_reduction(x);             // shortest_path_reduction_assign / strong_reduction_assign
-    else if (op == "incremental_closure") force_incremental(x, tk.nextl());
+    else if (op == "incremental_closure") {
+      // the contract of incremental_*_closure_assign(v): the matrix was closed and then constraints on v only were added
+      unsigned v = tk.nextl(); Constraint c = read_con(tk, dim);
+      force_closure(x); x.add_constraint(c); force_incremental(x, v);
+    }
     else if (op == "obs_constraints") { (void) x.constraints(); }
     else if (op == "obs_minimized_constraints") { (void) x.minimized_constraints(); }
     else if (op == "obs_is_empty") { (void) x.is_empty(); }
